@@ -172,7 +172,29 @@ func RunWorker(e Engine, tier string, batch uint64, lo, hi, stride int, deadline
 			}
 			var min *Script
 			var r2 *Result
-			if isProcessStateful(e) {
+			stateful := isProcessStateful(e)
+			if !stateful {
+				min = Minimize(e, s, sig, 4000)
+				r2 = e.Exec(min, false)
+				if p, ok := asPinner(e); ok && r2.Violation != nil {
+					if pinned := p.Pin(min, r2); pinned != nil {
+						if r3 := e.Exec(pinned, false); r3.Violation != nil && r3.Violation.Signature == sig {
+							min, r2 = pinned, r3
+						}
+					}
+				}
+				// The engine declares no process-wide state in the code it drives, but
+				// a change to that code can introduce some (a pool, a cache): what is
+				// reported must reproduce in a fresh process, so try that now and treat
+				// the run as process-stateful if it does not.
+				if bitmapPath != "" && !isDeathSig(sig) {
+					if g, _, _ := freshExec(min, bitmapPath+".cand.json"); g != sig {
+						out.Extra["violations_showing_undeclared_process_state"]++
+						stateful = true
+					}
+				}
+			}
+			if stateful {
 				// confirm and minimise in fresh processes only
 				min, r2 = isolatedMinimize(s, sig, bitmapPath+".cand.json")
 				if min == nil {
@@ -192,16 +214,6 @@ func RunWorker(e Engine, tier string, batch uint64, lo, hi, stride int, deadline
 						out.Trouble = fmt.Sprintf("run %d reported %s in this process but a fresh process does not reproduce it", idx, sig)
 					}
 					continue
-				}
-			} else {
-				min = Minimize(e, s, sig, 4000)
-				r2 = e.Exec(min, false)
-			}
-			if p, ok := asPinner(e); ok && r2.Violation != nil {
-				if pinned := p.Pin(min, r2); pinned != nil {
-					if r3 := e.Exec(pinned, false); r3.Violation != nil && r3.Violation.Signature == sig {
-						min, r2 = pinned, r3
-					}
 				}
 			}
 			if r2.Violation == nil || r2.Violation.Signature != sig {
